@@ -231,6 +231,9 @@ func (c *Ctx) c04Chunk(gs []*gast.Grammar, flagSets [][]string, rng *rand.Rand) 
 			continue
 		}
 		c.Distinct(u.Pkg + u.FlagID + gast.Short(u.G))
+		if u.GIdx == 0 && len(u.Flags) >= 4 {
+			c.Sample(map[string]any{"grammar": gast.Short(u.G), "flags": u.FlagID, "input": fmt.Sprintf("%q", inputs[u.GIdx]), "value": trunc(r.Val), "compiled": true, "vet": "clean"})
+		}
 		if !u.HasFlag("-optimize-grammar") {
 			m := ref.Run(u.G, inputs[u.GIdx], ref.Opts{StepCap: 200000})
 			if !m.Capped && r.Val != m.ValCanon {
